@@ -5,8 +5,8 @@
   `_CHAR_CACHE[c, style]`, line wrapping with the early `return x, y`, the `x >= 0 and y >= 0 and
   x < width` store condition, erasing the neighbours of a wide character with `_CHAR_CACHE["", ""]`,
   the zero-width merge into the previous cell(s), line prefixes incl. the continuation prefix
-  after a wrap, horizontal scrolling) and the outer `copy()` loop (vertical_scroll,
-  vertical_scroll_2).  Not modelled: alignment (LEFT only), cursor/menu positions, highlighting.
+  after a wrap, horizontal scrolling, alignment) and the outer `copy()` loop (vertical_scroll,
+  vertical_scroll_2).  Not modelled: cursor/menu positions, cursor line/column highlighting.
 
   The screen buffer is an association list, newest entry first; a missing key reads as the
   screen's default character (defaultdict).
@@ -50,6 +50,8 @@ structure CopyCfg where
   height : Int
   wrap : Bool
   hscroll : Nat
+  /-- `align`: 0 = LEFT, 1 = CENTER, 2 = RIGHT -/
+  align : Nat
   /-- `to_formatted_text(get_line_prefix(lineno, wrap_count))`, `none` = no `get_line_prefix` -/
   pre : Option (Nat → Nat → List Frag)
 
@@ -126,11 +128,25 @@ def plainFrags (cfg : CopyCfg) : CopySt → List Frag → CopySt × Bool
       let (st', stop) := plainText cfg style st text
       if stop then (st', true) else plainFrags cfg st' rest
 
+/-- `fragment_list_width(line)`: raw character widths, marked fragments excluded -/
+def fragsWidth (wc : Char → Int) : List Frag → Nat
+  | [] => 0
+  | (style, text) :: rest => (if isZwe style then 0 else cwidth wc text) + fragsWidth wc rest
+
+/-- "Align this line": the shift of `x` for CENTER / RIGHT alignment -/
+def alignShift (cfg : CopyCfg) (x : Int) (line : List Frag) : Int :=
+  let lw : Int := fragsWidth cfg.wc line
+  if cfg.align = 1 then (if lw < cfg.width then x + (cfg.width - lw) / 2 else x)
+  else if cfg.align = 2 then (if lw < cfg.width then x + (cfg.width - lw) else x)
+  else x
+
 /-- drawing a prefix: the nested call's own early return does not propagate -/
 def drawPrefix (cfg : CopyCfg) (lineno wrapCount : Nat) (st : CopySt) : CopySt :=
   match cfg.pre with
   | none => st
-  | some f => (plainFrags cfg st (f lineno wrapCount)).1
+  | some f =>
+    let frs := f lineno wrapCount
+    (plainFrags cfg { st with x := alignShift cfg st.x frs } frs).1
 
 /-! #### `copy_line(..., is_input=True)` -/
 
@@ -173,6 +189,7 @@ def copyLineInput (cfg : CopyCfg) (lineno : Nat) (st : CopySt) (line : List Frag
       let (h, l) := hscrollDrop cfg.wc cfg.hscroll (explode line)
       ({ st with x := st.x - h }, l)
     else (st, line)
+  let st := { st with x := alignShift cfg st.x line }
   (inputFrags cfg lineno { st := st, wrapCount := 0 } line).1.st
 
 /-- `copy()`: `while y < write_position.height and lineno < line_count` -/
